@@ -224,6 +224,29 @@ def known_replays(ctx, findings):
                     bad = bad or wf_snapshot(snapshot_vm(r["vm"]))
             out.append((e, bad is not None, bad))
             continue
+        if e["id"] in ("D59", "D63"):
+            # getline on a line too long for any block: every register stays a 16-bit word up to the library's exit
+            import stdlibcases as sc
+            bad = None
+            for n in e["line_lengths"]:
+                for conv in ("reg", "stack"):
+                    r = sc.run(sc.program(conv, "getline", [], {k: k for k in range(1, 11)}), stdin="a" * n + "\n", budget=20.0)
+                    if "raise" in r:
+                        bad = bad or "%s getline on a line of %d characters raised %s" % (conv, n, r["raise"])
+                    else:
+                        w = wf_snapshot(snapshot_vm(r["vm"]))
+                        bad = bad or (w and "%s getline on a line of %d characters: %s" % (conv, n, w))
+            out.append((e, bool(bad), bad or None))
+            continue
+        if e["id"] == "D61":
+            rs = dc.RealSession("SET(R1, 1)\nHALT()\n", {"big_stack": False, "init": [], "warn_return_on": True})
+            for line in e["history"]:
+                rs.command(line)
+            bad = wf_snapshot(snapshot_vm(rs.shell.debugger.vm))
+            if not bad and rs.shell.debugger.vm.registers[13] != 0:
+                bad = "execute ran the branch spelled as an OPCODE: R13 = %d" % rs.shell.debugger.vm.registers[13]
+            out.append((e, bad is not None, bad))
+            continue
         if e["id"] != "D9":
             continue
         rs = dc.RealSession("SET(R1, 1)\nHALT()\n", {"big_stack": False, "init": [], "warn_return_on": True})
@@ -235,7 +258,9 @@ def known_replays(ctx, findings):
 
 
 def init_strings(rng, n):
-    regs = ["r0", "R0", "r1", "R15", "sp", "FP", "pc_ret", "rt", "fp_alt", "r16", "r-1", "x", "r01", "", "r", "R", "r" + "7" * 4400]
+    regs = ["r0", "R0", "r1", "R15", "sp", "FP", "pc_ret", "rt", "fp_alt", "r16", "r-1", "x", "r01", "", "r", "R", "r" + "7" * 4400,
+            # signed register numbers: Python's negative indices would reach the register file from its end (seed C02h)
+            "r-16", "r-15", "R-16", "r-17", "r-2", "r+3", "r-0", "r1_0"]
     vals = ["0", "5", "-1", "-32768", "-32769", "65535", "65536", "70000", "0x10", "0xFFFF", "0x10000",
             "0b11", "0o17", "abc", "", "1e3", "--1", "99999999999999999999"]
     out = []
